@@ -12,8 +12,7 @@ The driver instantiates it with the Layer-A model `Univers.Conan`; `ConanRangeSp
 local instance on plain dotted numeric versions.
 
 Exceptions: `ConanException` derives from `Exception` (NOT from `ValueError`): it is
-`TErr.other "ConanException"`.  `IndexError` escapes from `expression[1]` and from
-`upper_bound(len(main))`.
+`TErr.other "ConanException"`; it is the error this converter raises for a text it cannot read.
 -/
 import Univers.Text.Err
 
@@ -73,7 +72,7 @@ structure ConanOps (V : Type) where
   str : V → List Char
   /-- `len(v.main)` -/
   mainLen : V → Nat
-  /-- `first_non_zero(v.main)`: index of the first item `!= 0`, else `len(main)` -/
+  /-- `first_non_zero(v.main)`: index of the first item `!= 0`, else `len(main) - 1` -/
   firstNonZero : V → Nat
   /-- `str(v.upper_bound(index))`; errors `IndexError`, `ConanException` -/
   upperBound : V → Nat → Except TErr (List Char)
@@ -93,11 +92,9 @@ def splitOperator (e : List Char) : Except TErr (Op × List Char) :=
   | [] => .error .IndexError                              -- `expression[0]`
   | c :: rest =>
     if c = '>' ∨ c = '<' then
-      match rest with
-      | [] => .error .IndexError                          -- `expression[1]`
-      | d :: rest' =>
-        if d = '=' then .ok (if c = '>' then .ge else .le, rest')
-        else .ok (if c = '>' then .gt else .lt, rest)
+      match rest with                                     -- `expression[1:2] == "="`
+      | '=' :: rest' => .ok (if c = '>' then .ge else .le, rest')
+      | _ => .ok (if c = '>' then .gt else .lt, rest)
     else if c = '^' then .ok (.caret, rest)
     else if c = '~' then .ok (.tilde, rest)
     else if c = '=' then .ok (.eq, rest)
